@@ -49,6 +49,7 @@ def gen_case(rng, tier, index):
     case["reader"] = rng.random() < 0.5
     case["reader_at"] = rng.randrange(0, 120)
     case["stride"] = 8 if hist["structure"]["fmt"] == "tfrec" else 1
+    case["crash_create"] = rng.random() < 0.3
     # in 40% of the cases the process is really killed at a seeded instant
     # (nothing it does afterwards reaches the disk) and a new process writes
     # one more session on what is left
@@ -93,7 +94,8 @@ def reach(agg):
                  "crashing_kind_root", "crashing_kind_sub",
                  "crashing_kind_multi", "crashing_session_first",
                  "crashing_session_continued", "reader_started_mid_session",
-                 "process_killed", "session_after_restart_completed"):
+                 "process_killed", "session_after_restart_completed",
+                 "crash_points_inside_create"):
         if not p.get(name):
             need.append(f"probe {name} never hit")
     return need
